@@ -2,6 +2,8 @@
 
 package main
 
+var commitCount int
+
 func killAtCommit(n int) {}
 
 const haveHooks = false
